@@ -4,18 +4,21 @@ import os, re, subprocess
 import vlib
 
 STAGES = ["core", "mono", "lift", "anf", "go"]
+# `src` = the SURFACE program (real ast::File dumps) under SrcSem: the reference whenever SrcSem decides
+CHAIN = ["src"] + STAGES
+FRONT_END = "front end (CST->AST lowering, derive, name resolution, typer elaboration, match compilation)"
 
-def run_sem(ctx, lines, cap=0):
-    p = subprocess.run(["bash", "-c", f"ulimit -s unlimited; exec {vlib.MODEL} sem"], input="\n".join(lines) + "\n",
+def run_sem(ctx, lines, cap=0, sub="sem", env=None):
+    p = subprocess.run(["bash", "-c", f"ulimit -s unlimited; exec {vlib.MODEL} {sub}"], input="\n".join(lines) + "\n",
                        stdout=subprocess.PIPE, stderr=subprocess.PIPE, text=True, timeout=3000,
-                       env=dict(os.environ, GV_CAP=str(cap)))
+                       env=dict(os.environ, GV_CAP=str(cap), **(env or {})))
     res = {}
     for l in p.stdout.split("\n"):
         f = l.split("\t")
         if len(f) >= 3:
             res[f[0]] = (f[1], f[2], f[3] if len(f) > 3 else "")
     if p.returncode != 0:
-        ctx.broken_ties.append(("model driver sem", p.stderr[-1000:]))
+        ctx.broken_ties.append((f"model driver {sub}", p.stderr[-1000:]))
     return res
 
 def gocheck(ctx, lines):
@@ -31,6 +34,52 @@ def gocheck(ctx, lines):
     return res
 
 
+def sexp_children(text):
+    """the direct children (as text) of the S-expression `text` = `(tag child…)`"""
+    out, depth, start, i, n = [], 0, None, 0, len(text)
+    while i < n:
+        c = text[i]
+        if c == '"':
+            if depth == 1 and start is None:
+                start = i
+            i += 1
+            while i < n and text[i] != '"':
+                i += 2 if text[i] == "\\" else 1
+            if depth == 1 and start is not None:
+                out.append(text[start:i + 1]); start = None
+        elif c == "(":
+            depth += 1
+            if depth == 2:
+                start = i
+        elif c == ")":
+            if depth == 2 and start is not None:
+                out.append(text[start:i + 1]); start = None
+            depth -= 1
+        elif depth == 1 and not c.isspace():
+            j = i
+            while j < n and not text[j].isspace() and text[j] not in "()":
+                j += 1
+            out.append(text[i:j]); i = j - 1
+        i += 1
+    return out
+
+def derive_only_adds_impls(plain, expanded):
+    """derive::expand must leave every written item alone and only insert impl blocks"""
+    pf, ef = sexp_children(plain)[1:], sexp_children(expanded)[1:]
+    if len(pf) != len(ef):
+        return "file count"
+    for a, b in zip(pf, ef):
+        ai, bi = sexp_children(a)[1:], sexp_children(b)[1:]
+        k = 0
+        for it in bi:
+            if k < len(ai) and it == ai[k]:
+                k += 1
+            elif not it.startswith("(impl "):
+                return "derive changed or added a non-impl item: " + it[:120]
+        if k != len(ai):
+            return "derive dropped or reordered an item: " + ai[k][:120]
+    return None
+
 def collect(ctx, sub="c01", extra=()):
     ok, out = ctx.gv(sub, extra)
     rows = vlib.read_tsv(os.path.join(ctx.run_dir, f"{sub}.cases.tsv")) if ok else []
@@ -45,6 +94,10 @@ def collect(ctx, sub="c01", extra=()):
             d["src"] = vlib.unesc(r[2])
         elif r[1] == "STAGE":
             d["stages"][r[2]] = r[3]
+        elif r[1] == "SRCPLAIN":
+            d["srcplain"] = r[2] if len(r) > 2 else ""
+        elif r[1] == "SRCERR":
+            d["srcerr"] = r[2] if len(r) > 2 else ""
         elif r[1] == "PPRINT":
             d["pprint"] = (r[2], vlib.unesc(r[3]) if len(r) > 3 else "")
         elif r[1] == "REJECT":
@@ -54,14 +107,22 @@ def collect(ctx, sub="c01", extra=()):
             d["panic"] = r[2]
             d["src"] = vlib.unesc(r[3]) if len(r) > 3 else None
     feats = next((r[1] for r in rows if r[0] == "#FEATS"), "")
+    # witnesses of KNOWN findings that another property owns are run by that property's check only
+    own = ctx.pid
+    for f in getattr(ctx, "findings", []):
+        w = f.get("witness") or ""
+        if f.get("status") == "known" and f.get("property") not in (own,) and w.startswith("corpus/"):
+            progs.pop("corpus:" + w[len("corpus/"):], None)
     return progs, feats
 
 def evaluate(ctx, progs):
-    lines = []
+    lines, src_lines = [], []
     for pid, d in progs.items():
         for st, sx in d["stages"].items():
-            lines.append(f"{pid}|{st}\t{sx}")
+            (src_lines if st == "src" else lines).append(f"{pid}|{st}\t{sx}")
     res = run_sem(ctx, lines) if lines else {}
+    if src_lines:
+        res.update(run_sem(ctx, src_lines, sub="srcsem"))
     # where the Go specification leaves the capacity of a grown slice open, Go.Sem takes it as a
     # parameter: programs that append are run again under a generous growth policy
     lines2 = [f"{pid}|go\t{d['stages']['go']}" for pid, d in progs.items() if "go" in d["stages"] and "append" in d["stages"]["go"]]
@@ -85,7 +146,8 @@ def expected_matches(pid, exp, got):
 
 def run(ctx):
     ctx.extract()
-    ctx.build_lean(["GomlVerif.Props.C01"] if os.path.exists(os.path.join(vlib.LEAN, "GomlVerif/Props/C01.lean")) else [])
+    ctx.build_lean([m for m in ["GomlVerif.Props.C01", "GomlVerif.Props.C01src"]
+                    if os.path.exists(os.path.join(vlib.LEAN, m.replace(".", "/") + ".lean"))])
     if not ctx.build_harness():
         return ctx.finish("translation_validation", {"programs": 0, "disagreements_checked": 0, "samples": []}, [], "lake build")
     progs, feats = collect(ctx)
@@ -94,11 +156,21 @@ def run(ctx):
     n_invalid_go = 0
     n_pprint = 0
     n_prog = n_agree = n_exp = n_exp_ok = n_fuel = n_extern = 0
+    n_from_src = n_gen = n_gen_src = n_exp_src = n_exp_src_ok = n_corpus = n_corpus_src = 0
+    fallback = {}
+    pending = []
     samples, distinct = [], set()
+    derive_checked = 0
     for pid, d in progs.items():
         if not d["stages"]:
             continue
         n_prog += 1
+        if d.get("srcplain") not in (None, "same") and "src" in d["stages"]:
+            derive_checked += 1
+            bad = derive_only_adds_impls(d["srcplain"], d["stages"]["src"])
+            if bad:
+                ctx.report({"oracle": "derive-expansion", "kind": bad.split(":")[0]},
+                           "derive::expand did more than insert impl blocks", {"id": pid, "src": d.get("src"), "detail": bad})
         o = d["out"]
         if any(v is None for v in o.values()):
             ctx.broken_ties.append(("sem driver", f"{pid}: missing stage result {[k for k, v in o.items() if v is None]}"))
@@ -114,23 +186,55 @@ def run(ctx):
                 ctx.report({"oracle": "go-printer", "kind": pp[0]},
                            "the printed Go text does not parse back to the Go AST it was printed from",
                            {"id": pid, "src": d.get("src"), "detail": pp[1][:600]})
-        if gc.get(pid, ("ok",))[0] == "err":
-            # not valid Go: whether it is accepted is C02's question; it has no Go behaviour to compare
+        invalid_go = gc.get(pid, ("ok",))[0] == "err"
+        if invalid_go:
+            # not valid Go: whether it is accepted is C02's question; it has no Go behaviour to
+            # compare, but everything before the Go back end still has
             n_invalid_go += 1
-            continue
         if any(v[0] == "fuel" for v in o.values()):
             n_fuel += 1
             continue
-        # source meaning: the earliest stage the dynamic semantics can run (Core unless it needs
-        # type-passing dispatch, which shows as `stuck` there), else Mono
-        ref_stage = "core" if not o["core"][0].startswith("stuck") else "mono"
+        # source meaning: the SURFACE program under SrcSem whenever SrcSem decides; otherwise the
+        # earliest stage the dynamic semantics can run (Core unless it needs type-passing dispatch,
+        # which shows as `stuck` there), else Mono
+        so = o.get("src")
+        if so is None:
+            why = "no-src-dump:" + (d.get("srcerr") or "?")
+        elif so[0].startswith("unsupported"):
+            why = so[0]
+        elif so[0].startswith("stuck"):
+            why = "src-" + so[0]
+            if not so[2].strip():
+                # (after an uninterpreted extern "go" call nothing is comparable, `stuck` included)
+                ctx.broken_ties.append(("SrcSem cannot run the program (model gap)", f"{pid}: {so[0]}"))
+            else:
+                why = "extern-go-call-result-used"
+        else:
+            why = None
+        if why is None:
+            ref_stage = "src"
+            n_from_src += 1
+            if pid.startswith("gen"):
+                n_gen_src += 1
+            if pid.startswith(("repo:", "pkg:")):
+                n_corpus_src += 1
+        else:
+            ref_stage = "core" if not o["core"][0].startswith("stuck") else "mono"
+            fallback[why] = fallback.get(why, 0) + 1
+        n_gen += pid.startswith("gen")
+        n_corpus += pid.startswith(("repo:", "pkg:"))
         ref = o[ref_stage]
         ext = bool(ref[2].strip())
         n_extern += ext
         payload = {"id": pid, "src": d.get("src"), "outcomes": {k: {"status": v[0], "stdout": vlib.unesc(v[1])[:400]} for k, v in o.items()},
                    "reference_stage": ref_stage}
-        # stage-wise: first stage whose outcome differs from the reference
-        div = next((st for st in STAGES[STAGES.index(ref_stage):] if (o[st][0], o[st][1]) != (ref[0], ref[1])), None)
+        # stage-wise: first stage whose outcome differs from the reference.  Core dumps that need
+        # type-passing dispatch are not executable by Sem (`stuck`): the chain then skips Core.
+        core_needs_types = o["core"][0].startswith("stuck") and not o["mono"][0].startswith("stuck")
+        chain = [st for st in CHAIN[CHAIN.index(ref_stage):]
+                 if not (st == "core" and ref_stage == "src" and core_needs_types)
+                 and not (st == "go" and invalid_go)]
+        div = next((st for st in chain if (o[st][0], o[st][1]) != (ref[0], ref[1])), None)
         if ext:
             # extern "go" calls are uninterpreted events: outputs are not comparable beyond them
             continue
@@ -143,8 +247,10 @@ def run(ctx):
             kind = "stdout-differs" if o[div][0] == ref[0] else f"ends-differently:{ref[0].split(':')[0]}->{o[div][0].split(':')[0]}"
             if o[div][0].startswith("stuck"):
                 kind = "stage-output-not-executable:" + o[div][0][:60]
-            ctx.report({"oracle": "stagewise", "first_divergent_stage": div, "kind": kind},
-                       f"the {div} stage no longer behaves like the {ref_stage} stage", payload)
+            blame = FRONT_END if (ref_stage == "src" and div == chain[1]) else f"the pass that produces {div}"
+            pending.append((pid, div, kind, blame, payload, ref_stage))
+        if invalid_go:
+            continue
         g2 = d.get("go_cap2")
         if g2 is not None and (g2[0], g2[1]) != (o["go"][0], o["go"][1]):
             ctx.report({"oracle": "go-unspecified-behaviour", "kind": "append-shares-backing-array"},
@@ -171,29 +277,59 @@ def run(ctx):
                 ctx.report({"oracle": "recorded-output", "program": pid},
                            "Go.Sem of the emitted Go differs from the output recorded from real Go",
                            dict(payload, expected=d["expect"][:400]))
+            # the same validation for SrcSem: the source meaning must be what real Go printed
+            if ref_stage == "src":
+                n_exp_src += 1
+                if expected_matches(pid, d["expect"], o["src"]):
+                    n_exp_src_ok += 1
+                else:
+                    ctx.report({"oracle": "recorded-output-src", "program": pid},
+                               "SrcSem of the source program differs from the output recorded from real Go",
+                               dict(payload, expected=d["expect"][:400]))
         if len(vlib.unesc(ref[1])) > 0:
             distinct.add(ref[1] + "|" + str(len(d["stages"].get("go", ""))))
         if len(samples) < 3 and pid.startswith("gen"):
             samples.append({"id": pid, "src": (d.get("src") or "")[:600], "stdout": vlib.unesc(ref[1])[:200], "status": ref[0]})
+    # attribution: a front-end divergence that disappears when SrcSem runs the initialisers of struct
+    # literals in DECLARATION order (semantics parameter `litDeclOrder`) is exactly that choice
+    front = [p for p in pending if p[5] == "src" and p[3] == FRONT_END]
+    alt = {}
+    if front:
+        alt = run_sem(ctx, [f"{pid}|src\t{progs[pid]['stages']['src']}" for pid, *_ in front], sub="srcsem", env={"GV_SRC_LITORDER": "decl"})
+    for pid, div, kind, blame, payload, ref_stage in pending:
+        a = alt.get(f"{pid}|src")
+        o = progs[pid]["out"]
+        if a is not None and (a[0], a[1]) == (o[div][0], o[div][1]):
+            kind = "struct-literal-initialisers-run-in-declaration-order"
+            payload = dict(payload, src_with_declaration_order_initialisers={"status": a[0], "stdout": vlib.unesc(a[1])[:400]})
+        ctx.report({"oracle": "stagewise", "first_divergent_stage": div, "kind": kind},
+                   f"the {div} stage no longer behaves like the {ref_stage} stage ({blame})", dict(payload, blamed=blame))
     rejected = sum(1 for d in progs.values() if "reject" in d)
     panics = [d for d in progs.values() if "panic" in d]
     ctx.violations.sort(key=lambda v: len(v[2].get("src") or "x" * 10**6))
     cov = {
         "programs": n_prog, "disagreements_checked": len(ctx.violations),
         "samples": samples or [{"id": "corpus only"}],
-        "evaluations": n_prog * len(STAGES), "distinct_nontrivial": len(distinct),
+        "evaluations": n_prog * len(CHAIN), "distinct_nontrivial": len(distinct),
         "rule": "one program = 82-program corpus (74 single-file pipeline programs here) + type-directed generated programs over the feature lattice; every accepted program's real "
-                "Core/Mono/Lift/ANF dumps run under Sem and its real Go AST under Go.Sem; non-trivial = prints something; distinct by stdout and Go size",
+                "Core/Mono/Lift/ANF dumps run under Sem and its real Go AST under Go.Sem, its real ast::File(s) under SrcSem (the reference); non-trivial = prints something; distinct by stdout and Go size",
         "all_stages_agree": n_agree, "with_recorded_output": n_exp, "recorded_output_reproduced": n_exp_ok,
+        "reference_is_source_level(SrcSem)": n_from_src, "reference_fell_back_to_core_or_mono": sum(fallback.values()),
+        "fallback_reasons": fallback,
+        "repository_corpus_programs_compared": n_corpus, "repository_corpus_programs_compared_from_src": n_corpus_src,
+        "generated_programs_compared": n_gen, "generated_programs_compared_from_src": n_gen_src,
+        "with_recorded_output_and_src_reference": n_exp_src, "recorded_output_reproduced_by_SrcSem": n_exp_src_ok,
+        "derive_expansion_checked": derive_checked,
         "printed_go_parsed_back_to_ast": n_pprint, "fuel_exhausted(skipped)": n_fuel, "rejected_by_gocheck(owned by C02)": n_invalid_go, "programs_with_extern_calls(compared up to events)": n_extern,
         "generator_rejected": rejected, "compiler_panics_seen(owned by C04)": len(panics),
         "generator_features": feats,
     }
     ctx.assumptions += [
-        "Sem (lean/GomlVerif/Model/Sem.lean) is the source-level meaning; Go.Sem (Model/GoSem.lean) is our reading of the Go spec for the emitted subset, validated against the outputs recorded from real Go",
+        "SrcSem (lean/GomlVerif/Model/SrcSem.lean) on the real ast::File dumps is the source-level meaning whenever it decides (status not unsupported:…); it is validated, like Go.Sem, by reproducing the outputs recorded from real Go; it starts at ast::File, so CST->AST lowering is trusted here (C11/C12 own it)",
+        "Sem (lean/GomlVerif/Model/Sem.lean) is the meaning of the IR stages (and the fallback reference); Go.Sem (Model/GoSem.lean) is our reading of the Go spec for the emitted subset, validated against the outputs recorded from real Go",
         "`go`: compared under the schedule that runs a spawned activation to completion at the spawn; real goroutine interleavings are outside the model",
         "floats: Go's shortest float formatting is not modelled; programs printing floats are compared only between stages that share the same formatting function",
         "go_pprint.rs is tied separately: the printed text of every program is parsed back by harness/src/goparse.rs (Go precedence, composite-literal rule) and must equal the AST with expression type annotations erased",
     ]
-    tb = ["Lean 4 (compiled model executable)", "Sem/Go.Sem definitions", "harness/src/dump.rs, godump.rs (IR serialisers)", "tools/props/c01.py"]
-    return ctx.finish("translation_validation", cov, tb, "gomlmodel sem (Lean-compiled Sem / Go.Sem on the real stage dumps)")
+    tb = ["Lean 4 (compiled model executable)", "Sem/Go.Sem definitions", "SrcSem definition", "harness/src/dump.rs, godump.rs (IR serialisers)", "harness/src/astdump.rs (ast::File serialiser)", "tools/props/c01.py"]
+    return ctx.finish("translation_validation", cov, tb, "gomlmodel srcsem + gomlmodel sem (Lean-compiled SrcSem / Sem / Go.Sem on the real AST and stage dumps)")
